@@ -187,7 +187,7 @@ func judgeFromBytes(c *gal.Ctx, idx int, p registers.Register, b []byte, panicke
 }
 
 func runFromBytesUnknown(c *gal.Ctx) {
-	for _, id := range []string{"BOGUS.REGISTER", "", "txt.ests", "TXT.ESTS ", "TXT.PUBLIC.KEY\x00", "IA32_MTRRCA", "TXT.E2STS"} {
+	for _, id := range []string{"BOGUS.REGISTER", "", "txt.ests", "TXT.ESTS ", "TXT.PUBLIC.KEY ", "IA32_MTRRCA", "TXT.E2STS"} {
 		if _, err := registers.New(registers.RegisterID(id), nil); err == nil {
 			continue // registered after all: swept with the known ones
 		}
